@@ -239,6 +239,7 @@ func HandleBulkBody(postBody []byte, ctx *fasthttp.RequestCtx, rid uint64, myid 
 				error_response := utils.BulkErrorResponse{
 					ErrorResponse: *utils.NewBulkErrorResponseInfo("request entity too large", "request_entity_exception"),
 				}
+				overallError = true
 				responsebody["index"] = error_response
 				responsebody["status"] = 413
 				items[inCount-1] = responsebody
